@@ -18,9 +18,15 @@ use linebuffer_common::*;
 use rgverif_harness::*;
 use std::path::{Path, PathBuf};
 
-const PATTERNS: [&str; 16] = [
+const PATTERNS: [&str; 20] = [
     "a", "b", "ab", "^a", "c$", "[ab]c", "x", " ", "a.*c", "^$", r"\bx\b", "aaaa", "[^a]", "^", "zzz", "c x|b",
+    // can match `\r` but never `\n`: under CRLF `multi_line(true)` must still be downgraded (the
+    // terminator's required byte is `\n`)
+    r"[^\n]+a", r"a\r?", r"[^\n]c", r"b[^\n]*",
 ];
+
+/// UTF-8 / UTF-16 byte order marks: with `bom_sniffing(false)` they are ordinary bytes for every strategy
+const BOMS: [&[u8]; 3] = [&[0xEF, 0xBB, 0xBF], &[0xFF, 0xFE], &[0xFE, 0xFF]];
 
 #[derive(Clone, Copy, Debug, PartialEq, Eq)]
 enum Lt {
@@ -59,6 +65,8 @@ struct Ds {
     son: bool,
     /// the sink answers `Ok(false)` at this callback index (None: never)
     stop: Option<usize>,
+    /// `bom_sniffing` (default on); off: no BOM handling at all, inputs may start with a BOM
+    sniff: bool,
     input: Input,
     strats: Vec<Strat>,
 }
@@ -127,7 +135,7 @@ impl Ds {
             Input::Gen(s, l, m) => format!("gen:{}:{}:{}", s, l, m),
         };
         format!(
-            "ds pat={} fast={} lt={} A={} B={} pt={} inv={} ln={} son={} stop={} inp={} strats={}",
+            "ds pat={} fast={} lt={} A={} B={} pt={} inv={} ln={} son={} stop={} sniff={} inp={} strats={}",
             hex(self.pat.as_bytes()),
             self.fast as u8,
             match self.lt {
@@ -142,6 +150,7 @@ impl Ds {
             self.line_number as u8,
             self.son as u8,
             self.stop.map_or("-".to_string(), |k| k.to_string()),
+            self.sniff as u8,
             inp,
             self.strats.iter().map(strat_str).collect::<Vec<_>>().join("|")
         )
@@ -178,6 +187,7 @@ impl Ds {
                 None | Some("-") => None,
                 Some(k) => Some(k.parse().ok()?),
             },
+            sniff: get("sniff").map_or(true, |v| v == "1"),
             input,
             strats: get("strats")?.split('|').filter(|s| !s.is_empty()).map(parse_strat).collect::<Option<Vec<_>>>()?,
         })
@@ -214,8 +224,24 @@ impl Ds {
         .passthru(self.passthru)
         .invert_match(self.invert)
         .line_number(self.line_number)
-        .stop_on_nonmatch(self.son);
+        .stop_on_nonmatch(self.son)
+        .bom_sniffing(self.sniff);
         b
+    }
+    /// `Searcher::multi_line_with_matcher` by the documented rule, computed here (NOT asked of the
+    /// code under test): a `multi_line(true)` search is line by line iff the matcher announces the
+    /// searcher's terminator, or can never match the terminator's required byte (`\n` for CRLF).
+    fn expect_ml_downgrade(&self, m: &RegexMatcher) -> bool {
+        use grep_matcher::Matcher;
+        let lt = match self.lt {
+            Lt::Lf => LineTerminator::byte(b'\n'),
+            Lt::Crlf => LineTerminator::crlf(),
+            Lt::Nul => LineTerminator::byte(0),
+        };
+        if m.line_terminator() == Some(lt) {
+            return true;
+        }
+        m.non_matching_bytes().map_or(false, |nm| nm.contains(lt_byte(self.lt)))
     }
 }
 
@@ -339,9 +365,32 @@ fn run_ds(case: &str, d: &Ds, scratch: &Path, rep: &mut Report) {
         rep.branch("ds:config-error");
         return;
     }
-    // multi_line(true) only belongs to the property when the matcher cannot match the terminator
-    let ml_downgrades = !d.builder().multi_line(true).build().multi_line_with_matcher(&m);
+    // multi_line(true) only belongs to the property when the matcher cannot match the terminator;
+    // that is decided by the rule, and the code's own decision is checked against it
+    let ml_downgrades = d.expect_ml_downgrade(&m);
+    let code_says = !d.builder().multi_line(true).build().multi_line_with_matcher(&m);
+    if code_says != ml_downgrades {
+        rep.violation(Violation {
+            kind: "impl_vs_model".into(),
+            class: "".into(),
+            tie: "Searcher::multi_line_with_matcher vs Model.Glue.multiLineWithMatcher (the rule)".into(),
+            case: case.to_string(),
+            detail: format!(
+                "pattern {:?}, terminator {:?}: the searcher {} the multi_line request to line mode, the rule says it {}",
+                d.pat,
+                d.lt,
+                if code_says { "downgrades" } else { "does not downgrade" },
+                if ml_downgrades { "must" } else { "must not" }
+            ),
+        });
+    }
     rep.branch(if ml_downgrades { "ds:ml-downgrades" } else { "ds:ml-real(skipped)" });
+    if ml_downgrades && d.lt == Lt::Crlf && !d.fast {
+        rep.branch("ds:ml-downgrades-crlf-nm");
+    }
+    if !d.sniff {
+        rep.branch(if BOMS.iter().any(|b| inp.starts_with(b)) { "ds:no-sniff-bom-input" } else { "ds:no-sniff" });
+    }
     let max_ctx = if d.passthru { 0 } else { d.after.max(d.before) };
     let has_ctx_event = spec.iter().any(|e| e.starts_with('c'));
     let mut file: Option<PathBuf> = None;
@@ -484,9 +533,21 @@ fn gen_ds(rng: &mut Rng, boundary: bool, big: bool) -> Ds {
         line_number: rng.chance(2, 3),
         son: rng.chance(1, 5),
         stop: if rng.chance(1, 5) { Some(rng.below(9)) } else { None },
+        sniff: true,
         input,
         strats: vec![],
     };
+    if !big && rng.chance(1, 5) {
+        // no BOM sniffing: the mark is data, for the reader as for the slice
+        d.sniff = false;
+        if rng.chance(3, 4) {
+            if let Input::Hex(v) = &d.input {
+                let mut w = rng.pick(&BOMS).to_vec();
+                w.extend_from_slice(v);
+                d.input = Input::Hex(w);
+            }
+        }
+    }
     let len = materialise(&d.input, d.lt).len();
     let caps: &[usize] = if boundary { &[1, 1, 2, 3] } else { &[1, 2, 3, 5, 8, 13, 64, 200] };
     if big {
@@ -527,6 +588,189 @@ fn gen_ds(rng: &mut Rng, boundary: bool, big: bool) -> Ds {
     d
 }
 
+// ---------------------------------------------------------------- hs: one Searcher reused for several inputs
+
+/// How one step of a history hands its input to the searcher.
+#[derive(Clone, Copy, Debug, PartialEq, Eq)]
+enum HStrat {
+    Slice,
+    Reader,
+    Path,
+    File,
+}
+
+/// One `Searcher` (line by line or really multi-line, with or without memory maps) searches several
+/// inputs in a row; every search must equal the same search by a fresh `Searcher`: no state (roll
+/// buffer, multi-line buffer, decoder buffers) may leak from one input to the next.
+#[derive(Clone, Debug)]
+struct Hs {
+    d: Ds,
+    ml: bool,
+    mmap: bool,
+    steps: Vec<(HStrat, Vec<u8>)>,
+}
+
+const HS_PATTERNS: [&str; 8] = ["a", "ab", "^a", "[^a]", "a\nb", "\n", "[^x]+", "b\n*a"];
+
+impl Hs {
+    fn case_str(&self) -> String {
+        let steps: Vec<String> = self
+            .steps
+            .iter()
+            .map(|(st, inp)| {
+                format!(
+                    "{}:{}",
+                    match st {
+                        HStrat::Slice => "s",
+                        HStrat::Reader => "r",
+                        HStrat::Path => "p",
+                        HStrat::File => "f",
+                    },
+                    hex(inp)
+                )
+            })
+            .collect();
+        let ds = self.d.case_str();
+        // the `ds` text without its input and strategies
+        let head: Vec<&str> = ds.split(' ').skip(1).filter(|f| !f.starts_with("inp=") && !f.starts_with("strats=")).collect();
+        format!("hs {} ml={} mmap={} steps={}", head.join(" "), self.ml as u8, self.mmap as u8, steps.join("|"))
+    }
+    fn parse(parts: &[&str]) -> Option<Hs> {
+        let get = |k: &str| parts.iter().find_map(|p| p.strip_prefix(k).and_then(|r| r.strip_prefix('=')));
+        let mut dparts: Vec<&str> = parts.to_vec();
+        dparts.push("inp=-");
+        dparts.push("strats=");
+        let d = Ds::parse(&dparts)?;
+        let mut steps = vec![];
+        for f in get("steps")?.split('|').filter(|f| !f.is_empty()) {
+            let (k, h) = f.split_once(':')?;
+            let st = match k {
+                "s" => HStrat::Slice,
+                "r" => HStrat::Reader,
+                "p" => HStrat::Path,
+                "f" => HStrat::File,
+                _ => return None,
+            };
+            steps.push((st, unhex(h)?));
+        }
+        Some(Hs { d, ml: get("ml")? == "1", mmap: get("mmap")? == "1", steps })
+    }
+    fn searcher(&self) -> grep_searcher::Searcher {
+        let mut b = self.d.builder();
+        b.multi_line(self.ml);
+        if self.mmap {
+            // SAFETY: the scratch files are private to this process and not modified while mapped.
+            b.memory_map(unsafe { MmapChoice::auto() });
+        } else {
+            b.memory_map(MmapChoice::never());
+        }
+        b.build()
+    }
+}
+
+fn hs_step(s: &mut grep_searcher::Searcher, m: &RegexMatcher, st: HStrat, inp: &[u8], file: &Path) -> Vec<String> {
+    let mut sink = RecSink::new();
+    let r = match st {
+        HStrat::Slice => s.search_slice(m, inp, &mut sink),
+        HStrat::Reader => s.search_reader(m, inp, &mut sink),
+        HStrat::Path => s.search_path(m, file, &mut sink),
+        HStrat::File => match std::fs::File::open(file) {
+            Ok(f) => s.search_file(m, &f, &mut sink),
+            Err(e) => Err(e),
+        },
+    };
+    finish_events(sink, r)
+}
+
+fn run_hs(case: &str, h: &Hs, scratch: &Path, rep: &mut Report) {
+    rep.eval();
+    let m = match h.d.matcher() {
+        Some(m) => m,
+        None => {
+            rep.branch("hs:pattern-rejected");
+            return;
+        }
+    };
+    let real_ml = h.ml && !h.d.expect_ml_downgrade(&m);
+    rep.branch(if real_ml { "hs:multi-line" } else { "hs:line-by-line" });
+    std::fs::create_dir_all(scratch).ok();
+    let mut reused = h.searcher();
+    let mut nonempty_before = false;
+    for (i, (st, inp)) in h.steps.iter().enumerate() {
+        let file = scratch.join(format!("c02-hist-{}", i));
+        if matches!(st, HStrat::Path | HStrat::File) {
+            std::fs::write(&file, inp).expect("write scratch file");
+        }
+        let got = hs_step(&mut reused, &m, *st, inp, &file);
+        let want = hs_step(&mut h.searcher(), &m, *st, inp, &file);
+        rep.branch(match (st, h.mmap) {
+            (HStrat::Slice, _) => "hs:slice",
+            (HStrat::Reader, _) => "hs:reader",
+            (HStrat::Path, true) => "hs:path-mmap",
+            (HStrat::Path, false) => "hs:path-read",
+            (HStrat::File, true) => "hs:file-mmap",
+            (HStrat::File, false) => "hs:file-read",
+        });
+        if i > 0 && nonempty_before && !inp.is_empty() {
+            rep.branch("hs:reused-after-nonempty-input");
+            if real_ml && !h.mmap && matches!(st, HStrat::Path | HStrat::File) {
+                rep.branch("hs:reused-multi-line-heap-read");
+                rep.nontrivial(case);
+            }
+        }
+        nonempty_before |= !inp.is_empty();
+        if got != want {
+            rep.violation(Violation {
+                kind: "impl_vs_spec".into(),
+                class: "".into(),
+                tie: "a Searcher reused for several inputs vs a fresh Searcher per input (same strategy)".into(),
+                case: case.to_string(),
+                detail: format!(
+                    "pattern {:?}, search #{} ({:?}, {} bytes, multi_line={}, mmap={}): reused searcher differs from a fresh one: {}",
+                    h.d.pat,
+                    i + 1,
+                    st,
+                    inp.len(),
+                    h.ml,
+                    h.mmap,
+                    first_diff(&want, &got)
+                ),
+            });
+            return;
+        }
+    }
+}
+
+fn gen_hs(rng: &mut Rng) -> Hs {
+    let mut d = gen_ds(rng, false, false);
+    d.strats.clear();
+    d.input = Input::Hex(vec![]);
+    d.stop = None;
+    let ml = rng.chance(2, 3);
+    if ml {
+        // half of the multi-line histories use a pattern that can match the terminator
+        d.fast = false;
+        if rng.chance(1, 2) {
+            d.pat = rng.pick(&HS_PATTERNS).to_string();
+        }
+        d.passthru = false;
+    }
+    let t = lt_byte(d.lt);
+    let n = rng.range(2, 5);
+    let mut steps = vec![];
+    for _ in 0..n {
+        let st = *rng.pick(&[HStrat::Slice, HStrat::Reader, HStrat::Path, HStrat::Path, HStrat::File, HStrat::File]);
+        let inp = if rng.chance(1, 8) {
+            vec![]
+        } else {
+            let (nl, ml_) = (*rng.pick(&[2usize, 5, 12]), *rng.pick(&[3usize, 10]));
+            gen_lines(rng, t, d.lt == Lt::Crlf, nl, ml_, b"aabx ")
+        };
+        steps.push((st, inp));
+    }
+    Hs { d, ml, mmap: rng.chance(1, 3), steps }
+}
+
 // ---------------------------------------------------------------- rb: search_reader vs the ReadByLine model
 
 /// One reader-strategy search with a literal matcher (searcher-core's `LitMatcher`, whose Lean twin
@@ -540,13 +784,15 @@ struct Rb {
     heap: Option<usize>,
     script: Vec<Step>,
     sink: searcher_common::Script,
+    /// `bom_sniffing` (off: an input may start with a BOM, which is then data)
+    sniff: bool,
 }
 
 impl Rb {
     fn case_str(&self) -> String {
         let o = |x: &Option<usize>| x.map_or("-".to_string(), |n| n.to_string());
         format!(
-            "rb cfg={} needle={} term={} nm={} cand={} inp={} cap={} heap={} script={} sink={}",
+            "rb cfg={} needle={} term={} nm={} cand={} inp={} cap={} heap={} script={} sink={} sniff={}",
             self.cfg.token(),
             hex(&self.m.needle),
             searcher_common::opt_lt_name(self.m.term),
@@ -556,7 +802,8 @@ impl Rb {
             o(&self.cap),
             o(&self.heap),
             script_str(&self.script),
-            self.sink.token()
+            self.sink.token(),
+            self.sniff as u8
         )
     }
     fn parse(parts: &[&str]) -> Option<Rb> {
@@ -576,6 +823,7 @@ impl Rb {
             heap: o(get("heap")?)?,
             script: parse_script(get("script")?)?,
             sink: searcher_common::Script::parse_token(get("sink")?)?,
+            sniff: get("sniff").map_or(true, |v| v == "1"),
         })
     }
 }
@@ -598,6 +846,7 @@ fn run_rb(case: &str, c: &Rb, drv: &mut Driver, rep: &mut Report) {
         .line_number(c.cfg.ln)
         .stop_on_nonmatch(c.cfg.son)
         .multi_line(c.cfg.ml)
+        .bom_sniffing(c.sniff)
         .heap_limit(c.heap);
     if let Some(cap) = c.cap {
         b.verif_buffer_capacity(cap);
@@ -648,6 +897,15 @@ fn run_rb(case: &str, c: &Rb, drv: &mut Driver, rep: &mut Report) {
         });
     }
     rep.branch("rb:run");
+    if c.cfg.ml {
+        rep.branch("rb:multi-line-requested");
+        if c.cfg.lt == searcher_common::Lt::Crlf && c.m.nm.as_ref().map_or(false, |b| b.contains(&b'\n') && !b.contains(&b'\r')) {
+            rep.branch("rb:multi-line-crlf-nm-lf-only");
+        }
+    }
+    if !c.sniff {
+        rep.branch(if BOMS.iter().any(|b| c.inp.starts_with(b)) { "rb:no-sniff-bom-input" } else { "rb:no-sniff" });
+    }
     if log.contains(&Step::Intr) {
         rep.branch("rb:interrupted");
     }
@@ -667,7 +925,17 @@ fn run_rb(case: &str, c: &Rb, drv: &mut Driver, rep: &mut Report) {
 }
 
 fn gen_rb(rng: &mut Rng, boundary: bool) -> Rb {
-    let cfg = searcher_common::gen_cfg(rng, 3);
+    let mut cfg = searcher_common::gen_cfg(rng, 3);
+    // multi_line requested: the strategy choice of search_reader is part of the model
+    if rng.chance(1, 4) {
+        cfg.ml = true;
+    }
+    // CRLF + multi_line + a matcher that can never match `\n` (but says nothing about `\r`)
+    let crlf_nm = rng.chance(1, 12);
+    if crlf_nm {
+        cfg.lt = searcher_common::Lt::Crlf;
+        cfg.ml = true;
+    }
     let needle: Vec<u8> = match rng.below(4) {
         0 => b"x".to_vec(),
         1 => b"ab".to_vec(),
@@ -680,6 +948,7 @@ fn gen_rb(rng: &mut Rng, boundary: bool) -> Rb {
         }
         _ => searcher_common::LitMatcher::new(needle, None, None, None),
     };
+    let m = if crlf_nm { searcher_common::LitMatcher::new(m.needle.clone(), None, Some(vec![b'\n']), m.cand.clone()) } else { m };
     let t = cfg.lt.byte();
     let inp = if boundary {
         match rng.below(5) {
@@ -703,7 +972,15 @@ fn gen_rb(rng: &mut Rng, boundary: bool) -> Rb {
         1 => searcher_common::Script::Err(rng.below(8)),
         _ => searcher_common::Script::All,
     };
-    Rb { cfg, m, inp, cap, heap, script, sink }
+    let sniff = !rng.chance(1, 6);
+    let mut inp = inp;
+    if !sniff && rng.chance(3, 4) {
+        let mut w = rng.pick(&BOMS).to_vec();
+        w.extend_from_slice(&inp);
+        inp = w;
+    }
+    let script = if sniff { script } else { gen_script(rng, inp.len(), intr) };
+    Rb { cfg, m, inp, cap, heap, script, sink, sniff }
 }
 
 fn run_case(case: &str, args: &Args, drv: &mut Driver, rep: &mut Report) {
@@ -719,6 +996,10 @@ fn run_case(case: &str, args: &Args, drv: &mut Driver, rep: &mut Report) {
         },
         Some("ds") => match Ds::parse(&parts) {
             Some(d) => run_ds(case, &d, &args.scratch, rep),
+            None => rep.notes.push(format!("unparsable case: {}", case)),
+        },
+        Some("hs") => match Hs::parse(&parts) {
+            Some(h) => run_hs(case, &h, &args.scratch, rep),
             None => rep.notes.push(format!("unparsable case: {}", case)),
         },
         _ => rep.notes.push(format!("unparsable case: {}", case)),
@@ -737,7 +1018,11 @@ fn main() {
          inputs 0-4 KiB (thorough: to ~300 KiB) x reader strategies (capacity 1..200 via hook, default 64 KiB, minimal \
          sufficient heap limit, scripted read sizes) + mmap/no-mmap paths + multi_line(true) when the matcher cannot match \
          the terminator; non-trivial = reader capacity < input length and a context line (or passthru) was delivered. \
-         Interrupted reads are a separate low-rate stream. Distinct by case text.",
+         Interrupted reads are a separate low-rate stream. \
+         CRLF + multi_line + patterns / literal matchers that can match CR but never LF; inputs starting with a UTF-8/UTF-16 \
+         BOM under bom_sniffing(false). hs: one Searcher (line by line or really multi-line, mmap on/off) reused for 2-5 \
+         inputs through search_slice / search_reader / search_path / search_file, each search compared with a fresh \
+         Searcher's. Distinct by case text.",
     );
     quiet_panics();
     for c in corpus_cases(&args) {
@@ -751,6 +1036,8 @@ fn main() {
                 gen_lb_case(&mut rng, Bin::None, i % 30 == 0).case_str()
             } else if i % 3 == 1 {
                 gen_rb(&mut rng, i % 30 == 1).case_str()
+            } else if i % 12 == 5 {
+                gen_hs(&mut rng).case_str()
             } else {
                 let big = args.thorough && i % 200 == 1;
                 gen_ds(&mut rng, i % 20 == 2, big).case_str()
